@@ -2292,8 +2292,12 @@ class Parameters:
         init_methods = []
         for method, queued, on_init, constant, dynamic in type(obj).param._depends['watch']:
             # On initialization set up constant watchers; otherwise
-            # clean up previous dynamic watchers for the updated attribute
-            dynamic = [d for d in dynamic if attribute is None or d.spec.split(".")[0] == attribute]
+            # clean up previous dynamic watchers if the updated attribute
+            # is a subobject the method depends on. The watchers are
+            # grouped per object, not per subobject path, so all of them
+            # have to be set up again.
+            if not (attribute is None or any(d.spec.split(".")[0] == attribute for d in dynamic)):
+                dynamic = []
             if init:
                 constant_grouped = defaultdict(list)
                 for dep in _resolve_mcs_deps(obj, constant, []):
